@@ -125,7 +125,7 @@ CURATED = {
     # deep chain: self transitions, ancestors re-run
     'k_deep': C('Composite', C('Composite', C('Composite', C('Resumable', L, L), L), L), L, C('Resumable', C('Resumable', L, L), L)),
     # random/utilitarian mix with orthogonal inside (mean utility)
-    'k_util_ortho': C('Utilitarian', O(L, L), C('Random', L, L, L, L), O(C('Utilitarian', L, L), C('Random', L, L)), L),
+    'k_util_ortho': C('Utilitarian', O(L, L), C('Random', L, L, L, L), O(C('Utilitarian', L, L), C('Random', L, L), C('Resumable', C('Composite', L, L), L)), L),
     # wide regions (balanced split at odd sizes), width 1 composite
     'k_wide': C('Resumable', L, L, L, L, L, L, L, C('Composite', L, L, L, L, L), L),
     # single composite region (queue capacity 1)
